@@ -14,16 +14,20 @@ Time           : `h.now` (float, epoch seconds) is THE clock.  While a harness i
                  .data.repository and .webpush_publisher are replaced by proxies reading `h.now`;
                  they are restored by `close()`.
 Isolation      : one harness at a time per process (openpectus.aggregator.data.database is a module
-                 singleton).  `close()` disposes the sqlite engine, un-configures the database module,
-                 closes the loop, removes the temp directory (db="file").  Use `with AggHarness() as h:`.
-Cost           : ~3 ms to open+close, ~0.2-0.5 ms per operation.
+                 singleton).  `close()` cancels leftover tasks, closes the loop, un-configures the database
+                 module, restores the patched module attributes and removes the temp directory (db="file").
+                 db="memory" re-uses ONE in-memory sqlite Engine per process (tables wiped on open and close,
+                 rowids restart at 1) because a fresh Engine means an empty statement cache (~15 ms per case);
+                 db="file" creates a new temp file per harness.  Use `with AggHarness() as h:`.
+Cost           : ~1.5 ms to open+close, 0.1-0.3 ms per frontend operation, 0.5-1 ms per engine message that
+                 writes to the database (idle machine).  Importing this module imports the aggregator (~6 s).
 
 Python API (small on purpose; C28/C29/C30/C37 and later C31/C32/C33 build on it)
 -------------------------------------------------------------------------------
   AggHarness(db="memory"|"file", t0=1_700_000_000.0, secret="", webpush_factory=None)
   h.now                                   virtual epoch seconds (assign or h.advance(dt))
   h.run(coro)                             run a coroutine on the private loop, then settle spawned tasks
-  h.aggregator / h.dispatcher / h.handlers / h.publisher / h.webpush      current incarnation
+  h.aggregator / h.dispatcher / h.handlers / h.publisher / h.webpush_publisher      current incarnation
   h.generation                            number of aggregator restarts so far
 
   engine side (names are short ids like "E1"; the aggregator's engine_id is h.engine_id(name))
